@@ -1,4 +1,5 @@
 """C16 — every connection accounted exactly once with a truthful record (sequential lifecycle part)."""
+import harness
 from specs import dispatch, lifecycle, timeouts, relay, accesslog
 
 
